@@ -2,7 +2,7 @@
    additive branch of UKFCorrection, polymorphic in the arithmetic.
      sigma_point::unscented_weights             sigma_point.cpp:52-82
      sigma_point::sigma_point (linear layout)   sigma_point.cpp:85-130
-     SUKFCorrection::correctStep                SUKFCorrection.cpp:76-190
+     SUKFCorrection::correctStep                SUKFCorrection.cpp:76-193
      SUKFCorrection::getNoiseCovarianceMatrix   SUKFCorrection.cpp:193-203
      SUKFCorrection::getLikelihood              SUKFCorrection.cpp:48-74
      utils::multivariate_gaussian_log_density_UVR as called there (one input
@@ -132,7 +132,11 @@ Record mixture (n : nat) := mkMix {
 }.
 Arguments mkMix {n}. Arguments mix_comps {n}. Arguments mix_weights {n}.
 
-(* innovations_ / propagated_sigma_points_: None = still empty *)
+(* innovations_ (with the matching blocks of propagated_sigma_points_): None = empty.
+   correctStep starts with innovations_.resize(0, 0) (SUKFCorrection.cpp:79-80), so the
+   member state left by an earlier step cannot influence the result: after an early
+   return getLikelihood() reports (false, -) whatever happened before
+   (propagated_sigma_points_ may be stale, but getLikelihood() tests innovations_ first). *)
 Definition members (n m : nat) := option (list (sukf_out n m)).
 
 (* correctStep with a valid measurement, valid prediction, valid innovation.
@@ -140,12 +144,12 @@ Definition members (n m : nat) := option (list (sukf_out n m)).
    when the step goes through; on a size mismatch corr_state = pred_state).
    Precondition of the constructor: 0 < s (meas_size % 0 is undefined in C++). *)
 Definition sukf_correct {n m s} (w : utw) (h : M O n 1 -> M O m 1) (y : M O m 1)
-           (nz : noise s m) (prev : members n m) (pred corr_prev : mixture n)
+           (nz : noise s m) (pred corr_prev : mixture n)
   : mixture n * members n m :=
   if Nat.eqb (m mod s) 0 then
     let outs := map (fun c => sukf_correct_comp w h y nz (fst c) (snd c)) (mix_comps pred) in
     (mkMix (map (fun o => (so_mean o, so_cov o)) outs) (mix_weights corr_prev), Some outs)
-  else (pred, prev).
+  else (pred, None).
 
 (* ---- likelihood: the UVR density as getLikelihood() calls it -------------- *)
 Fixpoint spow (x : T Sc) (k : nat) : T Sc :=
@@ -266,7 +270,7 @@ Arguments mkSukfOut {_ n m}. Arguments so_mean {_ n m}. Arguments so_cov {_ n m}
 Arguments so_innov {_ n m}. Arguments so_Y {_ n m}.
 Arguments sukf_correct_comp {_ n m s} w h y nz x P.
 Arguments mkMix {_ n}. Arguments mix_comps {_ n}. Arguments mix_weights {_ n}.
-Arguments sukf_correct {_ n m s} w h y nz prev pred corr_prev.
+Arguments sukf_correct {_ n m s} w h y nz pred corr_prev.
 Arguments spow {_} x k.
 Arguments lik_Rcat {_ s m} nz.
 Arguments gauss_log_value {_} d det q.
